@@ -57,6 +57,13 @@ def textPageWrites (p : Page) : List Str := textWritesL p.kids ++ [t_text_page_e
 
 def textDocWrites (ps : List Page) : List Str := ps.flatMap textPageWrites
 
+/-- one `receive_layout(ltpage)` call of a `TextConverter` constructed with `showpageno`: the
+`if self.showpageno:` write (regenerated template of `ltpage.pageid`), `render(ltpage)`, the page terminator -/
+def textPageWritesPn (showpageno : Bool) (p : Page) : List Str :=
+  (if showpageno then [t_text_page_no p.pageid] else []) ++ textWritesL p.kids ++ [t_text_page_end]
+
+def textDocWritesPn (showpageno : Bool) (ps : List Page) : List Str := ps.flatMap (textPageWritesPn showpageno)
+
 /-! ### XMLConverter: the sequence of `write` calls -/
 
 mutual
